@@ -55,7 +55,10 @@ def build_tmd(rng, n_chunks, n_info, canonical=True):
     infos, covered, pos = [], [], 0
     for k in range(n_info):
         left = n_chunks - pos
-        cnt = left if k == n_info - 1 and rng.chance(0.7) else rng.randint(0, max(left, 0))
+        if n_info >= 32:
+            cnt = left if k == n_info - 1 else min(left, 1)
+        else:
+            cnt = left if k == n_info - 1 and rng.chance(0.7) else rng.randint(0, max(left, 0))
         if k > 0 and cnt == 0 and pos == 0:
             cnt = 0
         grp = chunks[pos:pos + cnt]
@@ -194,6 +197,17 @@ class C11(Check):
             bb = bytearray(b)
             bb[h + 0x4E:h + 0x50] = w.to_bytes(2, 'big')
             yield {'tmd': bytes(bb), 'verify': 1, 'tamper': None, 'lay': lay, 'canonical': True}
+        # boundary record counts: every info-record slot in use (63 / 64 records), clean and with a fault in the
+        # last slot / in a chunk record covered by the last info record
+        for n_info in (63, 64):
+            for k in range(3):
+                b2, lay2 = build_tmd(rngx, 64 + k, n_info)
+                yield {'tmd': b2, 'verify': 1, 'tamper': None, 'lay': lay2, 'canonical': True}
+                last_slot = lay2['info_off'] + 0x24 * (n_info - 1) + 5
+                yield {'tmd': b2, 'verify': 1, 'tamper': ['protected', last_slot, 0x10], 'lay': lay2, 'canonical': True}
+                if lay2['covered']:
+                    pos = lay2['chunk_off'] + 0x30 * lay2['covered'][-1] + 0x0F
+                    yield {'tmd': b2, 'verify': 1, 'tamper': ['protected', pos, 0x01], 'lay': lay2, 'canonical': True}
 
     def run_case(self, case, drv):
         from pyctr.type.tmd import TitleMetadataReader, TitleMetadataError, ContentCategories
